@@ -1,4 +1,5 @@
 import Litestream.Model.LtxName
+import Litestream.Props.C08
 import Litestream.Lemmas.V3Name
 import Litestream.Gen.Names
 /-! C08 — the naming and listing layer under the restore planner (`ltx.FormatFilename` /
@@ -147,6 +148,149 @@ parse or its MinTXID is below `seek` (in particular never by size, type or age),
 theorem gen_ltx_listing_shape :
     Gen.skipsLTXFiles = ["err != nil", "minTXID < seek"] ∧ Gen.parseLTXFiles = "ltx.ParseFilename;" ∧
     Gen.sortLTXFiles = "ltx.NewFileInfoSliceIterator(infos)" := by decide
+
+
+/-! ### From the disk to the planner
+
+`planFiles` (Props/C08.lean) plans over a set of `FileInfo`s "as seen through a sorting client".  The
+definitions below say what the file client makes of a replica directory, and the theorems connect
+the two: planning over the directory written from a file set is planning over that file set, so
+`planFiles_sound` / `planFiles_complete` / `planFiles_reaches_max` hold of what is on disk. -/
+
+/-- One level directory as the file client reads it: `(name, mtime)` of every entry. -/
+def dirFiles (lvl : Nat) (entries : List (List Char × Nat)) : List FileInfo :=
+  entries.filterMap fun e => (parseLtx e.1).map fun p => ⟨lvl, p.1, p.2, e.2⟩
+
+/-- A replica directory: level directories with their entries. -/
+def diskFiles (disk : List (Nat × List (List Char × Nat))) : List FileInfo :=
+  disk.flatMap fun d => dirFiles d.1 d.2
+
+/-- `WriteLTXFile` of every file of `fs`: stored in its level directory under `FormatFilename`, mtime = CreatedAt. -/
+def store (fs : List FileInfo) : List (Nat × List (List Char × Nat)) :=
+  fs.map fun f => (f.level, [(fmtLtx f.min f.max, f.created)])
+
+/-- `CalcRestorePlan` over a replica directory read by the file client. -/
+def planDisk (disk : List (Nat × List (List Char × Nat))) (tg : Target) : Except PlanErr (List FileInfo) :=
+  planFiles (diskFiles disk) tg
+
+theorem diskFiles_store (fs : List FileInfo) (hb : ∀ f ∈ fs, f.min < 2 ^ 64 ∧ f.max < 2 ^ 64) :
+    diskFiles (store fs) = fs := by
+  induction fs with
+  | nil => rfl
+  | cons f fs ih =>
+    have hf := hb f (by simp)
+    have := ih (fun g hg => hb g (by simp [hg]))
+    simp only [diskFiles, store, List.map_cons, List.flatMap_cons] at this ⊢
+    rw [this]
+    simp [dirFiles, ltx_name_roundtrip f.min f.max hf.1 hf.2]
+
+theorem diskFiles_junk (junk : List (Nat × List (List Char × Nat)))
+    (hj : ∀ d ∈ junk, ∀ e ∈ d.2, parseLtx e.1 = none) : diskFiles junk = [] := by
+  induction junk with
+  | nil => rfl
+  | cons d ds ih =>
+    have h1 : dirFiles d.1 d.2 = [] := by
+      have hd := hj d (by simp)
+      generalize d.2 = es at hd
+      induction es with
+      | nil => rfl
+      | cons e es ihe =>
+        simp only [dirFiles, List.filterMap_cons, hd e (by simp), Option.map_none]
+        exact ihe (fun e' he' => hd e' (by simp [he']))
+    simp only [diskFiles, List.flatMap_cons, h1, List.nil_append]
+    exact ih (fun d' hd' => hj d' (by simp [hd']))
+
+/-- **Planning over what is on disk is planning over what was written**: every file stored under its
+formatted name (64-bit TXIDs), any number of unparsable entries (staging files, foreign files) in any
+level directory beside them. -/
+theorem planDisk_store (fs : List FileInfo) (junk : List (Nat × List (List Char × Nat))) (tg : Target)
+    (hb : ∀ f ∈ fs, f.min < 2 ^ 64 ∧ f.max < 2 ^ 64) (hj : ∀ d ∈ junk, ∀ e ∈ d.2, parseLtx e.1 = none) :
+    planDisk (store fs ++ junk) tg = planFiles fs tg := by
+  unfold planDisk
+  have : diskFiles (store fs ++ junk) = fs := by
+    simp only [diskFiles, List.flatMap_append]
+    have h1 := diskFiles_store fs hb
+    have h2 := diskFiles_junk junk hj
+    simp only [diskFiles] at h1 h2
+    rw [h1, h2, List.append_nil]
+  rw [this]
+
+/-- The end-to-end form of soundness: a plan computed from the directory is a valid chain of files
+that were written. -/
+theorem planDisk_sound {fs : List FileInfo} {junk tg P} (hwf : FilesWF fs)
+    (hb : ∀ f ∈ fs, f.min < 2 ^ 64 ∧ f.max < 2 ^ 64) (hj : ∀ d ∈ junk, ∀ e ∈ d.2, parseLtx e.1 = none)
+    (h : planDisk (store fs ++ junk) tg = .ok P) :
+    P ≠ [] ∧ chainFrom 0 P = true ∧ (∀ f, P.head? = some f → f.min = 1) ∧
+      (∀ f ∈ P, f ∈ fs ∧ elig tg f = true) ∧ (tg.txid ≠ 0 → chainEnd 0 P = tg.txid) ∧
+      (∀ T, tg.ts = some T → ∀ f ∈ P, f.created < T) := by
+  rw [planDisk_store fs junk tg hb hj] at h
+  exact planFiles_sound hwf h
+
+/-- The planner's own listing model (`listLevel`: insertion sort by `fileLe`) and the name layer's
+(`listLtx`: parse, sort by `segLe`) describe the same listing of one level directory. -/
+theorem key_insertSorted (f : FileInfo) (L : List FileInfo) (hl : ∀ g ∈ L, g.level = f.level) :
+    (insertSorted f L).map (fun g => (g.min, g.max)) = ins segLe (f.min, f.max) (L.map fun g => (g.min, g.max)) := by
+  induction L with
+  | nil => rfl
+  | cons g gs ih =>
+    have hg : g.level = f.level := hl g (by simp)
+    have hle : fileLe f g = segLe (f.min, f.max) (g.min, g.max) := by
+      unfold fileLe segLe
+      simp only [hg, ne_eq, not_true_eq_false, if_false]
+      by_cases hm : f.min = g.min
+      · simp [hm]
+      · simp only [hm, not_false_eq_true, if_true]
+        by_cases hlt : f.min < g.min
+        · simp [hlt]
+        · simp [hlt, hm]
+    simp only [insertSorted, List.map_cons, ins, hle]
+    split
+    · rfl
+    · simp only [List.map_cons]
+      rw [ih (fun x hx => hl x (by simp [hx]))]
+
+theorem key_sortFiles (lvl : Nat) (L : List FileInfo) (hl : ∀ g ∈ L, g.level = lvl) :
+    (sortFiles L).map (fun g => (g.min, g.max)) = isort segLe (L.map fun g => (g.min, g.max)) := by
+  induction L with
+  | nil => rfl
+  | cons g gs ih =>
+    have h1 : ∀ x ∈ sortFiles gs, x.level = g.level := by
+      intro x hx
+      rw [hl g (by simp)]
+      exact hl x (by simp [(mem_sortFiles x gs).1 hx])
+    show (insertSorted g (sortFiles gs)).map _ = ins segLe _ (isort segLe _)
+    rw [key_insertSorted g _ h1, ih (fun x hx => hl x (by simp [hx]))]
+
+theorem dirFiles_keys (lvl : Nat) (entries : List (List Char × Nat)) :
+    (dirFiles lvl entries).map (fun g => (g.min, g.max)) = (entries.map (·.1)).filterMap parseLtx := by
+  induction entries with
+  | nil => rfl
+  | cons e es ih =>
+    simp only [dirFiles, List.map_cons, List.filterMap_cons] at ih ⊢
+    cases hp : parseLtx e.1 with
+    | none => simpa using ih
+    | some p => simp only [Option.map_some, List.map_cons]; rw [ih]
+
+theorem listLevel_dir_eq_listLtx (lvl : Nat) (entries : List (List Char × Nat)) :
+    (listLevel (dirFiles lvl entries) lvl).map (fun g => (g.min, g.max)) = listLtx (entries.map (·.1)) 0 := by
+  have hlvl : ∀ g ∈ dirFiles lvl entries, g.level = lvl := by
+    intro g hg
+    simp only [dirFiles, List.mem_filterMap, Option.map_eq_some_iff] at hg
+    obtain ⟨e, _, p, _, rfl⟩ := hg
+    rfl
+  have hfilter : (dirFiles lvl entries).filter (fun f => f.level == lvl) = dirFiles lvl entries := by
+    rw [List.filter_eq_self]
+    intro g hg
+    simp [hlvl g hg]
+  have hkeys := dirFiles_keys lvl entries
+  have h3 : ∀ l : List (Nat × Nat), l.filter (fun p => decide (0 ≤ p.1)) = l := by
+    intro l; rw [List.filter_eq_self]; intro a _; simp
+  unfold listLevel listLtx
+  rw [hfilter, key_sortFiles lvl _ hlvl, hkeys, h3]
+
+/-- Non-vacuity of `planDisk_store`: three files and a staging file on disk. -/
+example : planDisk (store [⟨9, 1, 2, 10⟩, ⟨0, 3, 3, 20⟩, ⟨0, 4, 4, 30⟩] ++ [(0, [("0000000000000005-0000000000000005.ltx.tmp".toList, 40)])]) ⟨0, none⟩
+    = .ok [⟨9, 1, 2, 10⟩, ⟨0, 3, 3, 20⟩, ⟨0, 4, 4, 30⟩] := by decide
 
 /-- Non-vacuity. -/
 example : listLtx ["0000000000000003-0000000000000003.ltx".toList, "0000000000000001-0000000000000002.ltx".toList,
